@@ -38,10 +38,26 @@ func allChecks() []Check {
 			ID: "C01", Title: "Parsing is total: a tree or an error, never a crash, hang or half-built tree",
 			Runs: []HarnessRun{
 				{Harness: "VP_C01_bytes", Quick: map[string]int{"L": 3}, Thorough: map[string]int{"L": 4}, MustReach: []string{"C01/bytes/accepted", "C01/bytes/rejected"}, PanicLabel: "C01/bytes/no-panic"},
+				{Harness: "VP_C01_tokens", Quick: map[string]int{"K": 2}, Thorough: map[string]int{"K": 3}, MustReach: []string{"C01/tokens/accepted", "C01/tokens/rejected"}, PanicLabel: "C01/tokens/no-panic"},
 			},
-			Bounds:      map[string]string{"bytes": "ParseSourceCode on every text of exactly L symbolic bytes (valid UTF-8 or not); quick L=3, thorough L=4; every path must end within the step budget (unwinding check)"},
+			Bounds: map[string]string{"bytes": "ParseSourceCode on every text of exactly L symbolic bytes (valid UTF-8 or not); quick L=3, thorough L=4; every path must end within the step budget (unwinding check)",
+				"tokens": "the real parser with full error recovery over every sequence of exactly K tokens (symbolic kinds over the whole scanner image, symbolic line-break flags) through a stub scanner; quick K=2, thorough K=3"},
 			Outside:     []string{"inputs longer than the bounds (64 KiB texts, deep nesting, long operator chains)", "running time proportional to input length"},
 			Assumptions: commonAssumptions,
+		},
+		{
+			ID: "C02", Title: "The tree follows the grammar: precedence, associativity, binding, rejection",
+			Runs: []HarnessRun{
+				{Harness: "VP_C02_tokens", Quick: map[string]int{"K": 3}, Thorough: map[string]int{"K": 4}, MustReach: []string{"C02/tokens/derivable", "C02/tokens/underivable"}, PanicLabel: "C02/tokens/no-panic"},
+				{Harness: "VP_C02_ops", Quick: map[string]int{"N": 3, "P": 0}, Thorough: map[string]int{"N": 3, "P": 0}, MustReach: []string{"C02/ops/derivable", "C02/ops/underivable"}, PanicLabel: "C02/ops/no-panic"},
+				{Harness: "VP_C02_ops", Quick: map[string]int{"N": 1, "P": 1}, Thorough: map[string]int{"N": 2, "P": 1}, MustReach: []string{"C02/ops/derivable"}, PanicLabel: "C02/ops/no-panic"},
+				{Harness: "VP_C02_lists", Quick: map[string]int{"K": 2}, Thorough: map[string]int{"K": 3}, MustReach: []string{"C02/lists/derivable", "C02/lists/underivable"}, PanicLabel: "C02/lists/no-panic"},
+			},
+			Bounds: map[string]string{"tokens": "differential: real parser (stub scanner, cut at first diagnostic) vs a reference parser written from the statement, on every sequence of exactly K tokens over the full alphabet with symbolic line-break flags; accept/reject must agree and trees are compared structurally; quick K=3, thorough K=4",
+				"ops":   "a op b op c op d with N symbolic operators over all binary operators, ',', '=', '?', ':' (N=3: all triples); with P=1 one operand (symbolic choice) carries symbolic prefix operators/typeof and a postfix .name or ()",
+				"lists": "[ t1..tK ] and a( t1..tK ) with K symbolic inner tokens and a symbolic line-break flag on the closing token; quick K=2, thorough K=3"},
+			Outside:     []string{"token sequences longer than the layers", "f(...) with no argument before the spread and whether the name after '.' may start on the next line (statement silent: assumed away)", "token-internal scanner errors (malformed literals) at token level"},
+			Assumptions: append([]string{"token-level harnesses replace (*Scanner).Scan by a stub that returns symbolic token kinds from the scanner image established by C14/scanstep (kind-in-image); native replays render the tokens to text and run the real scanner"}, commonAssumptions...),
 		},
 		{
 			ID: "C12", Title: "Numeric literals denote exactly the decimal number written",
@@ -78,8 +94,9 @@ func allChecks() []Check {
 			Runs: []HarnessRun{
 				{Harness: "VP_C15_linecol", Quick: map[string]int{"L": 4}, Thorough: map[string]int{"L": 5}, MustReach: []string{"C15/linecol/done"}},
 				{Harness: "VP_C15_binsearch", Quick: map[string]int{"N": 5}, Thorough: map[string]int{"N": 7}, MustReach: []string{"C15/binsearch/done"}},
+				{Harness: "VP_C15_ranges", Quick: map[string]int{"L": 3}, Thorough: map[string]int{"L": 4}, MustReach: []string{"C15/ranges/accepted", "C15/errtext/diagnostic"}, PanicLabel: "C15/ranges/no-panic"},
 			},
-			Bounds:      map[string]string{"linecol": "all texts of exactly L bytes (every byte symbolic) x every offset 0..L; quick L=4, thorough L=5", "binsearch": "strictly increasing arrays of 0..N symbolic 64-bit ints; quick N=5, thorough N=7"},
+			Bounds:      map[string]string{"ranges": "real parse of every text of L symbolic bytes: node ranges within the text, children nested in source order, text[pos:end] of every expression node re-parsed and compared; for rejected texts the error string equals pos(l, c) error(code) msg with (l,c) from the direct count at Diagnostics[0].Start; quick L=3, thorough L=4", "linecol": "all texts of exactly L bytes (every byte symbolic) x every offset 0..L; quick L=4, thorough L=5", "binsearch": "strictly increasing arrays of 0..N symbolic 64-bit ints; quick N=5, thorough N=7"},
 			Outside:     []string{"texts longer than the bound"},
 			Assumptions: commonAssumptions,
 		},
